@@ -70,6 +70,10 @@ def pose_condition(S1, S2):
   return cond
 
 
+class SkipPose(Exception):
+  pass
+
+
 def hsup_any(S, n):
   """Support value including the half-space below a plane (only defined along its normal)."""
   if S.typ == 'plane':
@@ -231,7 +235,10 @@ def main(ck):
       info = dict(ta=ta, tb=tb, sa=sa, sb=sb, PA=PA, qA=gg.mat2quat(RA), PB=PB, qB=gg.mat2quat(RB), margin=M, gap=G,
                   okind=okind, dkind=dkind, dclass=dclass, delta=delta, shifted=shifted, tol=tol_ccd, xml=xml)
       soft = []
-      check_pose(ck, res, S, M, G, tol_ccd, info, calib, stats, soft, True)
+      try:
+        check_pose(ck, res, S, M, G, tol_ccd, info, calib, stats, soft, True)
+      except SkipPose:
+        continue
       if soft:
         # FINDING F2 (see report): GJK occasionally stagnates with an error far above ccd_tolerance, and whether it
         # does depends on the last bits of the coordinates. The same configuration is re-evaluated after rigid
@@ -248,7 +255,10 @@ def main(ck):
             continue
           S2 = [gr.Shape(ta, sa, res2['xpos'][0], res2['xmat'][0]), gr.Shape(tb, sb, res2['xpos'][1], res2['xmat'][1])]
           soft2 = []
-          check_pose(ck, res2, S2, M, G, tol_ccd, info, calib, stats, soft2, False)
+          try:
+            check_pose(ck, res2, S2, M, G, tol_ccd, info, calib, stats, soft2, False)
+          except SkipPose:
+            continue
           if not soft2:
             ok = True
             break
@@ -274,6 +284,10 @@ def main(ck):
                                   'depth too small (44 % observed) when capsule 1 overhangs capsule 2; (b) the parallel test '
                                   '|det| < mjMINVAL is absolute: for half-lengths >~ 1 rounding noise selects the general '
                                   'branch with meaningless parameters (missing contacts, ~100 % depth error)',
+      'planecylinder-parallel-noise': 'mjc_PlaneCylinder: when the cylinder axis equals the plane normal up to rounding (angle ~1e-16 rad, '
+                                      'e.g. both orientations derived from the same rotation) the test len_sqr >= mjMINVAL^2 passes and the '
+                                      'rim direction is normalised rounding noise: contact dist / mj_geomDistance are wrong by up to one radius '
+                                      '(-0.00203 instead of +5.0e-6 for r=0.005)',
       'capsulebox-distmax': 'mjraw_CapsuleBox initialises bestdistmax with a length (margin + 2*sizes) and compares it with '
                             'squared distances: for geoms/margins larger than ~1 contacts are missed and mj_geomDistance '
                             'returns distmax (same root cause as C28:capsulebox-distmax)'}
@@ -318,6 +332,13 @@ def main(ck):
     desc = lambda: ' | case: %s' % {k: (v.tolist() if isinstance(v, np.ndarray) else v) for k, v in info.items() if k != 'xml'}
 
     def hard(msg, bucket):
+      if disc_slack:
+        # FINDING: mjc_PlaneCylinder decides "disc parallel to the plane" with len_sqr < mjMINVAL^2 (1e-30); for angles of
+        # ~1e-16 rad (orientations equal up to rounding) the rim direction `vec` is normalised rounding noise, not
+        # perpendicular to the axis, and both the contact position and the DISTANCE are off by up to one radius
+        if record:
+          finding('planecylinder-parallel-noise', msg + desc(), info)
+        raise SkipPose()
       raise Violation(msg + desc(), bucket=bucket)
 
     def softfail(msg, bucket):
